@@ -25,6 +25,8 @@ LEVEL_TEXT = ('Decides from the source: for every attribute combination of the f
               'round trip of arbitrary text are not decided.')
 TECHNIQUE += '; interpretation of __format__/__str__ over {spec} x {stored spec} x {colour on/off} x {fg} (visible text = format(text, spec), escapes applied once); style-last dataflow rule (no width, slice or pad operation receives a value that flowed from a styling call)'
 LEVEL_TEXT += ' Added clauses: format(style, spec) pads the visible text and styles once; truncation and padding are applied before styling everywhere in the package.'
+TECHNIQUE += '; visual_len = len(descape(text)), style(text, fmt=) carries the spec, repr writes the attributes with colour off'
+LEVEL_TEXT += ' Added clauses: see technique (C20.R4 additions).'
 LEVEL_NOTE = 'Trusted: format(text, spec) of the standard library; re semantics as parsed by re._parser.'
 EXPLANATION = ('Static analysis of /repo sources, TatSu not imported. Style.apply / apply_style / from_raw are interpreted by the '
                'whitelisted evaluator on checker-built style objects; regex literals of tatsu/util/tty.py are recompiled by the checker.')
